@@ -7,8 +7,10 @@ import (
 	"io"
 	"mime"
 	netmail "net/mail"
+	"os"
 	"path/filepath"
 	"strings"
+	texttemplate "text/template"
 
 	mail "github.com/wneessen/go-mail"
 )
@@ -36,6 +38,7 @@ type FileSpec struct {
 	CID     *string `json:"cid,omitempty"`
 	Content []byte  `json:"content"`
 	Fails   bool    `json:"fails,omitempty"`
+	Source  string  `json:"source,omitempty"` // "" / reader | seeker | fs | iofs | tpl
 }
 
 type AddrOp struct {
@@ -65,6 +68,16 @@ type MsgSpec struct {
 var addrKinds = []mail.AddrHeader{mail.HeaderFrom, mail.HeaderEnvelopeFrom, mail.HeaderTo, mail.HeaderCc, mail.HeaderBcc, mail.HeaderReplyTo}
 
 var errProducer = errors.New("producer failed")
+
+// temporary directories created for file-system backed files; removed by cleanupTemp
+var tempDirs []string
+
+func cleanupTemp() {
+	for _, d := range tempDirs {
+		_ = os.RemoveAll(d)
+	}
+	tempDirs = nil
+}
 
 func producer(chunks [][]byte, fails bool) func(io.Writer) (int64, error) {
 	return func(w io.Writer) (int64, error) {
@@ -186,10 +199,53 @@ func (sp *MsgSpec) Build() (*mail.Msg, []string, error) {
 			cid = encS(*f.CID)
 		}
 		var err error
-		if f.Attach {
-			err = m.AttachReader(f.Name, bytes.NewReader(f.Content), fo...)
-		} else {
-			err = m.EmbedReader(f.Name, bytes.NewReader(f.Content), fo...)
+		switch f.Source {
+		case "seeker":
+			if f.Attach {
+				m.AttachReadSeeker(f.Name, bytes.NewReader(f.Content), fo...)
+			} else {
+				m.EmbedReadSeeker(f.Name, bytes.NewReader(f.Content), fo...)
+			}
+		case "fs", "iofs":
+			dir, derr := os.MkdirTemp("", "gmverif-files-")
+			if derr != nil {
+				return nil, nil, derr
+			}
+			tempDirs = append(tempDirs, dir)
+			base := "file" + filepath.Ext(f.Name)
+			if werr := os.WriteFile(filepath.Join(dir, base), f.Content, 0o600); werr != nil {
+				return nil, nil, werr
+			}
+			fo = append(fo, mail.WithFileName(f.Name))
+			if f.Source == "fs" {
+				if f.Attach {
+					m.AttachFile(filepath.Join(dir, base), fo...)
+				} else {
+					m.EmbedFile(filepath.Join(dir, base), fo...)
+				}
+			} else {
+				if f.Attach {
+					err = m.AttachFromIOFS(base, os.DirFS(dir), fo...)
+				} else {
+					err = m.EmbedFromIOFS(base, os.DirFS(dir), fo...)
+				}
+			}
+		case "tpl":
+			tpl, terr := texttemplate.New("t").Parse("{{.}}")
+			if terr != nil {
+				return nil, nil, terr
+			}
+			if f.Attach {
+				err = m.AttachTextTemplate(f.Name, tpl, string(f.Content), fo...)
+			} else {
+				err = m.EmbedTextTemplate(f.Name, tpl, string(f.Content), fo...)
+			}
+		default:
+			if f.Attach {
+				err = m.AttachReader(f.Name, bytes.NewReader(f.Content), fo...)
+			} else {
+				err = m.EmbedReader(f.Name, bytes.NewReader(f.Content), fo...)
+			}
 		}
 		if err != nil {
 			return nil, nil, err
